@@ -691,9 +691,14 @@ Proof.
 Qed.
 
 (* on an ABI with a 64-bit unsigned long the size checks never fire: the sizes always fit *)
+Lemma size_arith a b c : 1 <= a <= 2147483647 -> 1 <= b <= 2147483647 -> 0 <= c <= 2147483648 ->
+  c * (b - 1) + a < 18446744073709551616.
+Proof. intros. nia. Qed.
+
 Theorem sizes_fit_64 w a h s c stride :
   valid_samp s -> valid_dim w -> valid_dim h -> valid_align a -> INT_MIN < stride <= INT_MAX ->
-  plane_fits 0 w a h s = true -> spec_total w a h s < 2 ^ 64 /\ plane_size c w stride h s < 2 ^ 64.
+  plane_fits 0 w a h s = true ->
+  spec_total w a h s < 18446744073709551616 /\ plane_size c w stride h s < 18446744073709551616.   (* 2^64 *)
 Proof.
   intros Hs Hw Hh Ha Hst F. destruct (valid_align_pow2 a Ha) as (k & Hk & ->).
   pose proof (chroma_fits 1 w k h s Hs Hw Hh ltac:(lia) F) as F1.
@@ -701,11 +706,13 @@ Proof.
   pose proof (plane_bytes_bound 0 w k h s Hs Hw Hh ltac:(lia) F).
   pose proof (plane_bytes_bound 1 w k h s Hs Hw Hh ltac:(lia) F1).
   pose proof (plane_bytes_bound 2 w k h s Hs Hw Hh ltac:(lia) F2).
-  change (2 ^ 64) with 18446744073709551616. split.
+  split.
   - unfold spec_total. destruct (s =? TJSAMP_GRAY); lia.
   - pose proof (chroma_fits c w k h s Hs Hw Hh ltac:(lia) F) as Fc. unfold plane_fits in Fc.
     pose proof (spec_pw_bounds c w s Hs Hw) as [B _]. pose proof (spec_ph_bounds c h s Hs Hh) as [B' _].
-    unfold plane_size, eff_stride. unfold INT_MIN, INT_MAX in *. destruct (stride =? 0); nia.
+    assert (B3 : 0 <= eff_stride stride (spec_pw c w s) <= 2147483648).
+    { unfold eff_stride, INT_MIN, INT_MAX in *. destruct (stride =? 0); lia. }
+    unfold plane_size. apply size_arith; unfold INT_MAX in *; lia.
 Qed.
 
 (* ------------------------------------------------------------------ scaled dimensions *)
@@ -750,3 +757,184 @@ Proof.
   - intros H. apply Z.eqb_eq in H. exists (Z.log2 a). split; [apply Z.log2_nonneg|apply is_pow2_inv; assumption].
   - intros (k & Hk & ->). rewrite is_pow2_pow2 by assumption. reflexivity.
 Qed.
+
+(* ------------------------------------------------------------------ statements exported to props/C20.v *)
+Definition plane_dims_statement : Prop :=
+  forall c w h s, valid_samp s -> valid_dim w -> valid_dim h ->
+  (* what the two size functions return *)
+  tj3YUVPlaneWidth c w s =
+    (if (0 <=? c) && (c <? ncomp s) then (if spec_pw c w s <=? INT_MAX then spec_pw c w s else 0) else 0) /\
+  tj3YUVPlaneHeight c h s =
+    (if (0 <=? c) && (c <? ncomp s) then (if spec_ph c h s <=? INT_MAX then spec_ph c h s else 0) else 0) /\
+  (* luma = PAD(w, mcuw/8); chroma = luma*8/mcuw = ceil(w / (mcuw/8)) *)
+  spec_pw 0 w s = pad_up w (tjMCUWidth s / 8) /\ spec_pw 0 w s * 8 / tjMCUWidth s = spec_pw 1 w s /\
+  (spec_pw 1 w s - 1) * (tjMCUWidth s / 8) < w <= spec_pw 1 w s * (tjMCUWidth s / 8) /\ spec_pw 2 w s = spec_pw 1 w s /\
+  spec_ph 0 h s = pad_up h (tjMCUHeight s / 8) /\ spec_ph 0 h s * 8 / tjMCUHeight s = spec_ph 1 h s /\
+  (spec_ph 1 h s - 1) * (tjMCUHeight s / 8) < h <= spec_ph 1 h s * (tjMCUHeight s / 8) /\ spec_ph 2 h s = spec_ph 1 h s /\
+  (* the pw[i]/ph[i] recomputed inside the per-plane codec paths agree *)
+  (0 <= c < 3 ->
+   cfp_plane_w c w s = spec_pw c w s /\ cfp_plane_h c h s = spec_ph c h s /\
+   enc_plane_w c w s = spec_pw c w s /\ enc_plane_h c h s = spec_ph c h s /\
+   dec_plane_w c w s = spec_pw c w s /\ dec_plane_h c h s = spec_ph c h s).
+
+Lemma plane_dims_proof : plane_dims_statement.
+Proof.
+  intros c w h s Hs Hw Hh.
+  destruct (spec_pw_chroma_from_luma w s Hs Hw) as (A1 & A2 & A3 & A4).
+  destruct (spec_ph_chroma_from_luma h s Hs Hh) as (B1 & B2 & B3 & B4).
+  split; [apply plane_width_spec; assumption|]. split; [apply plane_height_spec; assumption|].
+  repeat split; try assumption; try reflexivity; try (apply A2); try (apply B2);
+    intros; apply (codec_plane_dims c w h s); assumption.
+Qed.
+
+Definition bufsize_is_sum_statement : Prop :=
+  forall ulbits szbits w a h s, valid_abi ulbits szbits -> valid_samp s -> valid_dim w -> valid_dim h -> valid_align a ->
+  (* value *)
+  tj3YUVBufSize ulbits szbits w a h s = bufsize_result ulbits w a h s /\
+  spec_total w a h s = (if s =? TJSAMP_GRAY then plane_bytes 0 w a h s
+                        else plane_bytes 0 w a h s + plane_bytes 1 w a h s + plane_bytes 2 w a h s) /\
+  (forall i, plane_bytes i w a h s = pad_up (spec_pw i w s) a * spec_ph i h s) /\
+  (* offsets 0, s0*ph0, s0*ph0 + s1*ph1; planes inside the buffer and pairwise disjoint *)
+  spec_off 0 w a h s = 0 /\ spec_off 1 w a h s = plane_bytes 0 w a h s /\
+  spec_off 2 w a h s = plane_bytes 0 w a h s + plane_bytes 1 w a h s /\
+  (forall i, 0 <= i < ncomp s -> 0 <= spec_off i w a h s /\ spec_off i w a h s + plane_bytes i w a h s <= spec_total w a h s) /\
+  (forall i j, 0 <= i -> i < j -> j < ncomp s -> spec_off i w a h s + plane_bytes i w a h s <= spec_off j w a h s) /\
+  (* a plane is stride*(ph-1)+pw bytes long, which is what tj3YUVPlaneSize returns, and fits its slot *)
+  (forall i, plane_size i w (spec_stride i w a s) h s = spec_stride i w a s * (spec_ph i h s - 1) + spec_pw i w s /\
+             plane_size i w (spec_stride i w a s) h s <= plane_bytes i w a h s) /\
+  (* sample (r, c) of plane i lives at its own address inside the plane *)
+  (forall i r c, 0 <= r < spec_ph i h s -> 0 <= c < spec_pw i w s ->
+     0 <= r * spec_stride i w a s + c < plane_size i w (spec_stride i w a s) h s) /\
+  (forall i r c r' c', 0 <= r -> 0 <= r' -> 0 <= c < spec_pw i w s -> 0 <= c' < spec_pw i w s ->
+     r * spec_stride i w a s + c = r' * spec_stride i w a s + c' -> r = r' /\ c = c').
+
+Lemma bufsize_is_sum_proof : bufsize_is_sum_statement.
+Proof.
+  intros ulbits szbits w a h s Habi Hs Hw Hh Ha.
+  destruct (layout_offsets w a h s Hs Hw Hh Ha) as (O0 & O1 & O2 & O3 & O4).
+  split; [apply bufsize_spec; assumption|]. split; [reflexivity|]. split; [reflexivity|].
+  split; [exact O0|]. split; [rewrite O1, O0; lia|]. split; [rewrite O2, O1, O0; lia|].
+  split; [exact O3|]. split; [exact O4|].
+  split; [intros i; destruct (plane_size_le_bytes w a h s Hs Hw Hh Ha i); split; assumption|].
+  split; [intros i r c; apply (sample_addresses w a h s Hs Hw Hh Ha)|].
+  intros i r c r' c'; apply (sample_addresses_injective w a h s Hs Hw Hh Ha).
+Qed.
+
+Definition planesize_statement : Prop :=
+  forall ulbits szbits c w stride h s, valid_abi ulbits szbits -> valid_samp s -> valid_dim w -> valid_dim h ->
+  0 <= c < ncomp s -> INT_MIN <= stride <= INT_MAX ->
+  tj3YUVPlaneSize ulbits szbits c w stride h s =
+    if stride =? INT_MIN then Val 0 else
+    if (spec_pw c w s <=? INT_MAX) && (spec_ph c h s <=? INT_MAX)
+    then Val (if ulong_check ulbits (plane_size c w stride h s) then 0 else plane_size c w stride h s)
+    else Val 0.
+
+Definition overflow_checks_statement : Prop :=
+  forall ulbits szbits w a h s, valid_abi ulbits szbits -> valid_samp s -> valid_dim w -> valid_dim h -> valid_align a ->
+  (forall c, 0 <= c < ncomp s ->
+     (tj3YUVPlaneWidth c w s = 0 <-> spec_pw c w s > INT_MAX) /\
+     (tj3YUVPlaneHeight c h s = 0 <-> spec_ph c h s > INT_MAX)) /\
+  (tj3YUVBufSize ulbits szbits w a h s = 0 <->
+     spec_pw 0 w s > INT_MAX \/ spec_ph 0 h s > INT_MAX \/ spec_stride 0 w a s > INT_MAX \/
+     (ulbits < 64 /\ spec_total w a h s > ULONG_MAX ulbits)) /\
+  (tj3YUVBufSize ulbits szbits w a h s <> 0 -> tj3YUVBufSize ulbits szbits w a h s = spec_total w a h s) /\
+  (forall c stride, 0 <= c < ncomp s -> INT_MIN < stride <= INT_MAX ->
+     exists v, tj3YUVPlaneSize ulbits szbits c w stride h s = Val v /\
+       (v = 0 <-> spec_pw c w s > INT_MAX \/ spec_ph c h s > INT_MAX \/
+                  (ulbits < 64 /\ plane_size c w stride h s > ULONG_MAX ulbits)) /\
+       (v <> 0 -> v = plane_size c w stride h s)) /\
+  (* no sum or product of the size functions can wrap the 64-bit accumulator *)
+  (plane_fits 0 w a h s = true -> spec_total w a h s < 18446744073709551616) /\
+  (* invalid arguments *)
+  (forall w' a' h' s' c, w' < 1 \/ s' < 0 \/ s' >= TJ_NUMSAMP -> tj3YUVPlaneWidth c w' s' = 0) /\
+  (forall w' a' h' s', a' < 1 \/ IS_POW2_c a' = false \/ s' < 0 \/ s' >= TJ_NUMSAMP -> tj3YUVBufSize ulbits szbits w' a' h' s' = 0).
+
+Lemma overflow_checks_proof : overflow_checks_statement.
+Proof.
+  intros ulbits szbits w a h s Habi Hs Hw Hh Ha.
+  split. { intros c Hc. split; [apply plane_width_error_iff|apply plane_height_error_iff]; assumption. }
+  destruct (bufsize_error_iff ulbits szbits w a h s Habi Hs Hw Hh Ha) as [E1 E2].
+  split; [exact E1|]. split; [exact E2|].
+  split. { intros c stride Hc Hst. apply planesize_error_iff; assumption. }
+  split. { intros F. apply (sizes_fit_64 w a h s 0 1 Hs Hw Hh Ha); [unfold INT_MIN, INT_MAX; lia|assumption]. }
+  split. { intros w' a' h' s' c H. apply plane_width_invalid. assumption. }
+  intros w' a' h' s' H. apply bufsize_invalid. assumption.
+Qed.
+
+Definition unified_eq_planes_statement : Prop :=
+  forall f w a h s, In f unified_fns ->
+  (valid_samp s -> valid_dim w -> valid_dim h -> valid_align a ->
+     unified_layout f w a h s = unified_result w a h s /\ unified_layout f w a h s <> UUB) /\
+  (w < 1 \/ h < 1 \/ a < 1 \/ IS_POW2_c a = false \/ s = TJSAMP_UNKNOWN -> unified_layout f w a h s = UErr).
+
+Lemma unified_eq_planes_proof : unified_eq_planes_statement.
+Proof.
+  intros f w a h s Hin. split.
+  - intros Hs Hw Hh Ha. pose proof (unified_layout_spec f w a h s Hin Hs Hw Hh Ha) as E. split; [exact E|].
+    rewrite E. unfold unified_result.
+    destruct (plane_fits 0 w a h s && (spec_pw 0 w s + a <=? INT_MAX)); [|discriminate].
+    destruct (s =? TJSAMP_GRAY); [discriminate|].
+    destruct ((plane_bytes 0 w a h s >? INT_MAX) || (plane_bytes 1 w a h s >? INT_MAX)); discriminate.
+  - apply unified_layout_invalid.
+Qed.
+
+Definition scaled_dims_statement : Prop :=
+  Z.of_nat (length sf_tbl) = NUMSF /\
+  forall num denom dim, In (num, denom) sf_tbl ->
+  (0 <= dim -> dim * num + denom - 1 <= INT_MAX ->
+     scaled_dim dim num denom = Val (cdiv (dim * num) denom) /\
+     (cdiv (dim * num) denom - 1) * denom < dim * num <= cdiv (dim * num) denom * denom /\
+     dtp_dctsize num denom * denom = DCTSIZE * num) /\
+  (0 <= dim <= 65535 -> scaled_dim dim num denom = Val (cdiv (dim * num) denom)).
+
+Lemma scaled_dims_proof : scaled_dims_statement.
+Proof.
+  split; [exact sf_tbl_length|]. intros num denom dim Hin. split.
+  - intros. apply scaled_dim_spec; assumption.
+  - intros. apply scaled_dim_jpeg; assumption.
+Qed.
+
+(* ------------------------------------------------------------------ concrete instances (non-vacuity, regressions) *)
+Lemma ex_valid_args : valid_samp TJSAMP_420 /\ valid_samp TJSAMP_GRAY /\ valid_samp TJSAMP_411 /\ valid_samp TJSAMP_441 /\
+  valid_dim 35 /\ valid_dim 2147483647 /\ valid_align 1 /\ valid_align 4 /\ valid_align 1073741824 /\
+  valid_abi 64 64 /\ valid_abi 32 32 /\ valid_abi 32 64 /\ In uEncodeYUV8 unified_fns /\ In (3, 8) sf_tbl.
+Proof.
+  unfold valid_samp, valid_dim, valid_align, valid_abi, TJ_NUMSAMP, INT_MAX, TJSAMP_420, TJSAMP_GRAY, TJSAMP_411, TJSAMP_441.
+  repeat split; try lia; try reflexivity; cbn; tauto.
+Qed.
+
+Lemma ex_420_35x39_align4 :
+  tj3YUVPlaneWidth 0 35 TJSAMP_420 = 36 /\ tj3YUVPlaneWidth 1 35 TJSAMP_420 = 18 /\
+  tj3YUVPlaneHeight 0 39 TJSAMP_420 = 40 /\ tj3YUVPlaneHeight 2 39 TJSAMP_420 = 20 /\
+  tj3YUVBufSize 64 64 35 4 39 TJSAMP_420 = 2240 /\
+  tj3YUVPlaneSize 64 64 1 35 20 39 TJSAMP_420 = Val 398 /\
+  unified_layout uDecompressToYUV8 35 4 39 TJSAMP_420 = ULayout [Some 0; Some 1440; Some 1840] [36; 20; 20] /\
+  unified_layout uCompressFromYUV8 35 4 39 TJSAMP_GRAY = ULayout [Some 0; None; None] [36; 0; 0].
+Proof. vm_compute. repeat split; reflexivity. Qed.
+
+Lemma ex_411_441 :
+  tj3YUVPlaneWidth 0 41 TJSAMP_411 = 44 /\ tj3YUVPlaneWidth 1 41 TJSAMP_411 = 11 /\
+  tj3YUVPlaneHeight 0 41 TJSAMP_441 = 44 /\ tj3YUVPlaneHeight 1 41 TJSAMP_441 = 11 /\
+  tj3YUVBufSize 64 64 41 8 35 TJSAMP_411 = 48 * 35 + 2 * 16 * 35 /\
+  tj3YUVPlaneWidth 1 41 TJSAMP_GRAY = 0.
+Proof. vm_compute. repeat split; reflexivity. Qed.
+
+(* boundaries of the overflow checks; the first three are the inputs that used to overflow an int *)
+Lemma ex_overflow_boundaries :
+  tj3YUVBufSize 64 64 2147483647 2 1 TJSAMP_444 = 0 /\
+  tj3YUVBufSize 64 64 1073741825 1073741824 1 TJSAMP_444 = 0 /\
+  tj3YUVBufSize 64 64 2147483647 1 1 TJSAMP_444 = 3 * 2147483647 /\
+  tj3YUVPlaneSize 64 64 0 10 INT_MIN 10 TJSAMP_444 = Val 0 /\
+  unified_layout uEncodeYUV8 2147483647 1 1 TJSAMP_444 = UErr /\
+  unified_layout uEncodeYUV8 2147483647 1073741824 1 TJSAMP_422 = UErr /\
+  tj3YUVPlaneWidth 0 2147483647 TJSAMP_422 = 0 /\ tj3YUVPlaneWidth 1 2147483647 TJSAMP_422 = 1073741824 /\
+  tj3YUVPlaneWidth 0 2147483646 TJSAMP_422 = 2147483646 /\
+  tj3YUVBufSize 32 32 65536 1 65536 TJSAMP_444 = 0 /\ tj3YUVBufSize 64 64 65536 1 65536 TJSAMP_444 = 12884901888 /\
+  unified_layout uDecodeYUV8 65536 1 32768 TJSAMP_444 = UErr /\
+  unified_layout uDecodeYUV8 65536 1 32767 TJSAMP_444 =
+    ULayout [Some 0; Some 2147418112; Some 4294836224] [65536; 65536; 65536].
+Proof. vm_compute. repeat split; reflexivity. Qed.
+
+Lemma ex_scaled : scaled_dim 227 3 8 = Val 86 /\ scaled_dim 149 15 8 = Val 280 /\ scaled_dim 65535 2 1 = Val 131070 /\
+  dtp_dctsize 3 8 = 3 /\ dtp_dctsize 2 1 = 16.
+Proof. vm_compute. repeat split; reflexivity. Qed.
